@@ -422,7 +422,9 @@ class Model:
                     site["doc"] = ref["doc"][1] if ref.get("doc") else "none"
                     site["ref_id"] = ref["id"]
                     if st == "multi":
-                        st = "ok"     # must bind to one of the allowed objects
+                        # an imported id collides with an id of the container (or two imports carry
+                        # it): which one is named is not fixed by the statement -> nothing asserted
+                        st, why = "loose", "imported-id-collides"
                         site["multi"] = True
                 else:
                     params = None
@@ -451,8 +453,9 @@ class Model:
 
     # ---- retargeting (R5) -----------------------------------------------------
     def retarget_expect(self, target_sn):
-        """-> (ok?, {site index: [allowed uids]}) for the layer-context SNREF sites after
-        retarget_snrefs(db, target).  ok is False when the model cannot fix the outcome."""
+        """-> (ok?, {site index: [allowed uids]}) for the layer-context SNREF sites owned by the
+        target layer and its transitive parents after retarget_snrefs(db, target).  ok is False
+        when the model cannot fix the outcome."""
         anc = set(self.ancestors(target_sn))
         out = {}
         ok = True
@@ -464,8 +467,7 @@ class Model:
                 if len(c) != 1:
                     ok = False
                 out[i] = c
-            else:
-                out[i] = list(s["allowed"])
+            # references owned by other layers: the statement does not say (not asserted)
         return ok, out
 
     # ---- summary --------------------------------------------------------------
@@ -1022,9 +1024,15 @@ class Gen:
                 slots.append((c, l, path, base, holder, key))
         if not slots:
             return
+        # balance over reference kinds: first a kind, then one of its sites
+        by_kind: dict = {}
+        for sl in slots:
+            by_kind.setdefault(rk_name(sl[3], sl[4][sl[5]]), []).append(sl)
+        kinds = sorted(by_kind)
         n = 1 if self.chance(85) else 2
         for _ in range(n):
-            c, l, path, base, holder, key = slots[r.randint(0, len(slots) - 1)]
+            group = by_kind[kinds[r.randint(0, len(kinds) - 1)]]
+            c, l, path, base, holder, key = group[r.randint(0, len(group) - 1)]
             ref = holder[key]
             new = self.corrupt(case, m, c, l, path, base, ref)
             if new is not None:
@@ -1071,7 +1079,7 @@ class Gen:
             opts.append(("unknown-docref", 2))
             opts.append(("nonexistent-id", 1))
             if ref.get("doc") is not None and plain(ref["id"]) == "bad":
-                opts.append(("dropped-docref", 5))
+                opts.append(("dropped-docref", 9))
             k = self.pick(opts)
             if k == "other-document":
                 return {"f": "id", "id": other[r.randint(0, len(other) - 1)], "doc": None, "tag": k}
